@@ -5,11 +5,18 @@
 //!   again : a second `process` over the tree the first one left (only with a separate output location)
 //!   rep   : a fresh tree whose files were created in REVERSE order, processed once
 //!   ref   : the tree WITHOUT the faulty files (model: RefCase), processed once (FailureIsolation)
+//! and, for the cases with per-directory context (`rc`: nested `.luaurc` files defining the same alias differently):
+//!   orders: fresh trees on which the sources are REGISTERED IN AN EXPLICIT ORDER (`WorkerTree::add_source` in that
+//!           order, then `WorkerTree::process`): every rotation of the forward and of the reverse order, so that every
+//!           file is processed before every other file at least once (BatchTrace verifies that: OrdersCover)
+//!   alone : per healthy file, the same tree without the other Lua files of the input, processed once
+//!   ev    : what every output of the main run shows of the alias resolution (the remaining `require` strings split at
+//!           `/`, the `alias_target` marks of inlined modules)
 //! The observations are judged by spec/trace/BatchTrace.tla; nothing is decided here.
 //!
 //! Paths travel as arrays of file names; a name is percent-encoded outside printable ASCII (`%C3%A9.lua`).
 use crate::util::{arg_value, guarded, read_ndjson, Out};
-use darklua_core::{Configuration, Options, Resources};
+use darklua_core::{Configuration, Options, Resources, WorkerTree};
 use serde_json::{json, Value};
 use std::collections::BTreeSet;
 use std::path::{Path, PathBuf};
@@ -64,24 +71,36 @@ fn fnv1a(bytes: &[u8]) -> String {
     format!("{:016x}", h)
 }
 
-/// `depth` = number of directories between the root of the tree and the file (in/a.lua: 1); `bundle`: bundling is
-/// configured, so healthy sources require the library modules lib/m1..m3 (outside the input) to give the bundler work
-fn content(class: &str, path: &str, depth: usize, bundle: bool) -> Vec<u8> {
+/// How the texts of a case are written: `bundle`: bundling is configured, so healthy sources require the library modules
+/// lib/m1..m3 (outside the input) to give the bundler work; `alias`: the configuration resolves aliases through `.luaurc`
+/// files, so healthy sources require `@lib/m1`
+#[derive(Clone, Copy)]
+struct Flavor {
+    bundle: bool,
+    alias: bool,
+}
+
+/// `depth` = number of directories between the root of the tree and the file (in/a.lua: 1)
+fn content(class: &str, path: &str, depth: usize, fl: Flavor) -> Vec<u8> {
     if let Some(id) = class.strip_prefix("ok:") {
         // spaces, a comment, foldable expressions, an unused local, an empty do, a dead loop: every configuration of
         // the universe rewrites this text
         let up = "../".repeat(depth);
-        let (req, ret) = if bundle {
+        let (mut req, mut ret) = if fl.bundle {
             (
                 format!(
                     "local m1 = require('{up}lib/m1')\nlocal m3 = require('{up}lib/m3')\nlocal m2 = require('{up}lib/m2')\n",
                     up = up
                 ),
-                " , m1 = m1 , m2 = m2 , m3 = m3",
+                " , m1 = m1 , m2 = m2 , m3 = m3".to_string(),
             )
         } else {
-            (String::new(), "")
+            (String::new(), String::new())
         };
+        if fl.alias {
+            req.push_str("local dep = require('@lib/m1')\n");
+            ret.push_str(" , dep = dep");
+        }
         return format!(
             "-- healthy source {id}\n{req}local  x  =  1  +  1 ;\nlocal unused = 'unused'\nlocal t = {{ value = x , [ 'key' ] = '{id}' }}\nlocal function  f ( a , b )\n    if a then return  a  +  x  end\n    return t [ 'key' ] .. tostring ( b )\nend\ndo end\nwhile false do f() end\nreturn  {{ name = '{id}' ,  f = f , t = t{ret} }}\n",
             id = id,
@@ -89,6 +108,14 @@ fn content(class: &str, path: &str, depth: usize, bundle: bool) -> Vec<u8> {
             ret = ret
         )
         .into_bytes();
+    }
+    // a .luaurc whose alias `lib` points to the directory <t> at the root of the tree, written relative to the .luaurc
+    if let Some(t) = class.strip_prefix("rc:") {
+        return format!("{{\n  \"aliases\": {{ \"lib\": \"{}{}\" }}\n}}\n", "../".repeat(depth), t).into_bytes();
+    }
+    // the module <t>/m1.lua says where it is
+    if let Some(t) = class.strip_prefix("alias:") {
+        return format!("return {{ alias_target = '{}' }}\n", t).into_bytes();
     }
     match class {
         // NOT `return return` (darklua accepts it)
@@ -104,9 +131,24 @@ fn content(class: &str, path: &str, depth: usize, bundle: bool) -> Vec<u8> {
     }
 }
 
+pub fn is_rc(cfg: &str) -> bool {
+    cfg == "luaurc" || cfg == "luaurcgap"
+}
+
 pub fn config_text(cfg: &str, bundle: bool) -> String {
-    let b = if bundle { ", bundle: { require_mode: { name: 'path', use_luau_configuration: false } }" } else { "" };
+    // aliases come from .luaurc files ONLY, and only in the configurations that say so
+    let b = if !bundle {
+        ""
+    } else if is_rc(cfg) {
+        ", bundle: { require_mode: { name: 'path', use_luau_configuration: true } }"
+    } else {
+        ", bundle: { require_mode: { name: 'path', use_luau_configuration: false } }"
+    };
     match cfg {
+        "luaurc" | "luaurcgap" => format!(
+            "{{ generator: 'dense', rules: [ {{ rule: 'convert_require', current: {{ name: 'luau', use_luau_configuration: true }}, target: {{ name: 'path' }} }} ]{} }}",
+            b
+        ),
         "empty" => format!("{{ generator: 'dense', rules: []{} }}", b),
         "default" => format!("{{ generator: 'dense'{} }}", b),
         "rootskip" => format!("{{ generator: 'dense', skip_files: ['**/sub/**']{} }}", b),
@@ -139,14 +181,19 @@ fn check_lua_flag(n: &Node) {
     // the model's notion of "Lua file" is the name's real extension
     let name = real_path(&n.segs);
     let ext = Path::new(&name).extension().and_then(|e| e.to_str()).map(|e| e == "lua" || e == "luau").unwrap_or(false);
-    let lua_class = n.class.starts_with("ok:") || n.class.starts_with("lib:") || n.class == "syntax" || n.class == "utf8" || n.class == "rule";
+    let lua_class = n.class.starts_with("ok:")
+        || n.class.starts_with("lib:")
+        || n.class.starts_with("alias:")
+        || n.class == "syntax"
+        || n.class == "utf8"
+        || n.class == "rule";
     if !n.dir && lua_class != ext && n.class != "pre" {
         eprintln!("renderer: content class {} does not fit the name {}", n.class, name);
         std::process::exit(2);
     }
 }
 
-fn render_fs(root: &Path, nodes: &[Node], reverse: bool, bundle: bool) {
+fn render_fs(root: &Path, nodes: &[Node], reverse: bool, fl: Flavor) {
     let mut order: Vec<&Node> = nodes.iter().collect();
     if reverse {
         order.reverse();
@@ -161,7 +208,7 @@ fn render_fs(root: &Path, nodes: &[Node], reverse: bool, bundle: bool) {
             if let Some(parent) = p.parent() {
                 std::fs::create_dir_all(parent).expect("mkdir parent");
             }
-            std::fs::write(&p, content(&n.class, &rel, n.segs.len() - 1, bundle)).expect("write file");
+            std::fs::write(&p, content(&n.class, &rel, n.segs.len() - 1, fl)).expect("write file");
         }
     }
 }
@@ -193,7 +240,7 @@ fn list_fs(root: &Path) -> Vec<Value> {
     out.into_iter().map(|x| x.1).collect()
 }
 
-fn render_mem(resources: &Resources, nodes: &[Node], reverse: bool, bundle: bool) {
+fn render_mem(resources: &Resources, nodes: &[Node], reverse: bool, fl: Flavor) {
     let mut order: Vec<&Node> = nodes.iter().filter(|n| !n.dir).collect();
     if reverse {
         order.reverse();
@@ -201,7 +248,7 @@ fn render_mem(resources: &Resources, nodes: &[Node], reverse: bool, bundle: bool
     for n in order {
         check_lua_flag(n);
         let rel = real_path(&n.segs);
-        let text = String::from_utf8(content(&n.class, &rel, n.segs.len() - 1, bundle)).expect("in-memory resources hold strings");
+        let text = String::from_utf8(content(&n.class, &rel, n.segs.len() - 1, fl)).expect("in-memory resources hold strings");
         resources.write(&rel, &text).expect("memory write");
     }
 }
@@ -227,15 +274,27 @@ struct Plan {
     ff: bool,
 }
 
+impl Plan {
+    fn flavor(&self) -> Flavor {
+        Flavor { bundle: self.bundle, alias: is_rc(&self.cfg) }
+    }
+}
+
+/// (source, destination or None in place): the sources of the case in the order they are to be registered
+type Registration = Vec<(String, Option<String>)>;
+
 struct RunOut {
     errors: Vec<String>,
     perr: String,
     panic: String,
 }
 
-/// One `darklua_core::process` on its own thread (generous stack; a fresh thread also means fresh hash seeds).
-/// The current directory of the process must already be the root of the tree (file-system world).
-fn run_process(resources: Resources, plan: &Plan) -> RunOut {
+/// One `darklua_core::process` on its own thread (generous stack; a fresh thread also means fresh hash seeds and an empty
+/// thread-local .luaurc cache).  The current directory of the process must already be the root of the tree (file-system
+/// world).  With `order` the work is not collected by darklua: the sources are registered one by one in that order
+/// (`WorkerTree::add_source`), then `WorkerTree::process` runs -- the files are processed in registration order.
+fn run_process(resources: Resources, plan: &Plan, order: Option<&Registration>) -> RunOut {
+    let order: Option<Registration> = order.cloned();
     let input = plan.input.clone();
     let output = plan.output.clone();
     let cfg_text = config_text(&plan.cfg, plan.bundle);
@@ -257,9 +316,21 @@ fn run_process(resources: Resources, plan: &Plan) -> RunOut {
             if ff {
                 options = options.fail_fast();
             }
-            guarded(|| match darklua_core::process(&resources, options) {
-                Ok(tree) => (tree.collect_errors().iter().map(|e| e.to_string()).collect::<Vec<_>>(), String::new()),
-                Err(e) => (Vec::new(), e.to_string()),
+            guarded(|| {
+                let done = match order {
+                    None => darklua_core::process(&resources, options),
+                    Some(order) => {
+                        let mut tree = WorkerTree::default();
+                        for (src, dst) in order {
+                            tree.add_source(&src, dst.map(PathBuf::from));
+                        }
+                        tree.process(&resources, options).map(|()| tree)
+                    }
+                };
+                match done {
+                    Ok(tree) => (tree.collect_errors().iter().map(|e| e.to_string()).collect::<Vec<_>>(), String::new()),
+                    Err(e) => (Vec::new(), e.to_string()),
+                }
             })
         })
         .expect("spawn");
@@ -338,18 +409,78 @@ struct World<'a> {
     extra: &'a BTreeSet<Vec<String>>,
 }
 
+/// what one rendered tree gave: the tree before, the first run, the second run over the same tree (if asked for) and
+/// the evidence read from the probed outputs after the FIRST run
+struct Ran {
+    t0: Vec<Value>,
+    first: Value,
+    second: Value,
+    ev: Vec<Value>,
+}
+
+/// the string arguments of the `require(...)` calls of a text, each split at `/`, and the `alias_target = '<t>'` marks
+fn evidence_of(text: &str) -> (Vec<Vec<String>>, Vec<String>) {
+    fn quoted_after<'t>(text: &'t str, from: usize) -> Option<&'t str> {
+        let rest = text[from..].trim_start();
+        let q = rest.chars().next()?;
+        if q != '\'' && q != '"' {
+            return None;
+        }
+        let body = &rest[1..];
+        body.find(q).map(|end| &body[..end])
+    }
+    let mut reqs = Vec::new();
+    let mut from = 0;
+    while let Some(off) = text[from..].find("require") {
+        let at = from + off + "require".len();
+        // `require('x')`, `require 'x'`
+        let rest = text[at..].trim_start();
+        let rest = rest.strip_prefix('(').unwrap_or(rest);
+        if let Some(s) = quoted_after(text, text.len() - rest.len()) {
+            reqs.push(s.split('/').map(str::to_string).collect());
+        }
+        from = at;
+    }
+    let mut marks = Vec::new();
+    from = 0;
+    while let Some(off) = text[from..].find("alias_target") {
+        let at = from + off + "alias_target".len();
+        if let Some(r) = text[at..].trim_start().strip_prefix('=') {
+            if let Some(s) = quoted_after(text, text.len() - r.len()) {
+                marks.push(s.to_string());
+            }
+        }
+        from = at;
+    }
+    (reqs, marks)
+}
+
+fn evidence_record(entry: usize, text: Option<String>) -> Option<Value> {
+    let text = text?;
+    let (reqs, marks) = evidence_of(&text);
+    Some(json!({"e": entry, "reqs": reqs, "marks": marks}))
+}
+
 impl<'a> World<'a> {
-    /// file-system world: returns (t0, first run, second run over the same tree if `again`)
-    fn fs(&self, nodes: &[Node], reverse: bool, again: bool) -> (Vec<Value>, Value, Value) {
+    /// file-system world.  `order`: register the sources explicitly (see run_process); `probe`: (entry number, destination)
+    /// of the outputs whose text is to be read after the first run
+    fn fs(&self, nodes: &[Node], reverse: bool, again: bool, order: Option<&Registration>, probe: &[(usize, String)]) -> Ran {
         let dir = tmp_root();
-        render_fs(dir.path(), nodes, reverse, self.plan.bundle);
+        render_fs(dir.path(), nodes, reverse, self.plan.flavor());
         let t0 = list_fs(dir.path());
         std::env::set_current_dir(dir.path()).expect("chdir");
-        let r1 = run_process(Resources::from_file_system(), self.plan);
+        let r1 = run_process(Resources::from_file_system(), self.plan, order);
         let t1 = list_fs(dir.path());
+        let ev = probe
+            .iter()
+            .filter_map(|(e, dst)| {
+                let p = dir.path().join(dst);
+                evidence_record(*e, if p.is_file() { std::fs::read(&p).ok().map(|b| String::from_utf8_lossy(&b).into_owned()) } else { None })
+            })
+            .collect();
         let rec1 = run_record(&r1, &t0, &t1, self.extra);
         let rec2 = if again {
-            let r2 = run_process(Resources::from_file_system(), self.plan);
+            let r2 = run_process(Resources::from_file_system(), self.plan, order);
             let t2 = list_fs(dir.path());
             run_record(&r2, &t1, &t2, self.extra)
         } else {
@@ -357,25 +488,42 @@ impl<'a> World<'a> {
         };
         std::env::set_current_dir("/").expect("chdir back");
         drop(dir); // removes the directory
-        (t0, rec1, rec2)
+        Ran { t0, first: rec1, second: rec2, ev }
     }
 
-    fn mem(&self, nodes: &[Node], reverse: bool, again: bool) -> (Vec<Value>, Value, Value) {
+    fn mem(&self, nodes: &[Node], reverse: bool, again: bool, order: Option<&Registration>, probe: &[(usize, String)]) -> Ran {
         let resources = Resources::from_memory();
-        render_mem(&resources, nodes, reverse, self.plan.bundle);
+        render_mem(&resources, nodes, reverse, self.plan.flavor());
         let t0 = list_mem(&resources);
-        let r1 = run_process(resources.clone(), self.plan);
+        let r1 = run_process(resources.clone(), self.plan, order);
         let t1 = list_mem(&resources);
+        let ev = probe.iter().filter_map(|(e, dst)| evidence_record(*e, resources.get(dst).ok())).collect();
         let rec1 = run_record(&r1, &t0, &t1, self.extra);
         let rec2 = if again {
-            let r2 = run_process(resources.clone(), self.plan);
+            let r2 = run_process(resources.clone(), self.plan, order);
             let t2 = list_mem(&resources);
             run_record(&r2, &t1, &t2, self.extra)
         } else {
             not_run()
         };
-        (t0, rec1, rec2)
+        Ran { t0, first: rec1, second: rec2, ev }
     }
+}
+
+/// the orders in which k sources are registered: every rotation of 0..k and of its reverse (all six orders for k = 3)
+fn orders_of(k: usize) -> Vec<Vec<usize>> {
+    let mut out: Vec<Vec<usize>> = Vec::new();
+    let fwd: Vec<usize> = (0..k).collect();
+    let rev: Vec<usize> = (0..k).rev().collect();
+    for base in [fwd, rev] {
+        for r in 0..k.max(1) {
+            let o: Vec<usize> = (0..k).map(|j| base[(j + r) % k]).collect();
+            if !out.contains(&o) {
+                out.push(o);
+            }
+        }
+    }
+    out
 }
 
 fn prefixes(segs: &[String], into: &mut BTreeSet<Vec<String>>) {
@@ -406,6 +554,25 @@ pub fn main(args: &[String]) -> i32 {
             prefixes(&segs_of(&e["dst"]), &mut extra);
         }
         let refrun = c["refrun"].as_bool().unwrap_or(false);
+        // the Lua files the run has to process: (entry number, source, destination or None in place), in entry order
+        let rc = c["rc"].as_bool().unwrap_or(false);
+        if rc != is_rc(&plan.cfg) {
+            eprintln!("driver: the case and the driver disagree on which configurations carry .luaurc files ({})", plan.cfg);
+            return 2;
+        }
+        let mut work: Vec<(usize, String, Option<String>)> = Vec::new();
+        let mut healthy: BTreeSet<usize> = BTreeSet::new();
+        for (k, e) in c["entries"].as_array().expect("entries").iter().enumerate() {
+            if e["work"].as_bool().unwrap_or(false) {
+                let dst = real_path(&segs_of(&e["dst"]));
+                work.push((k + 1, real_path(&segs_of(&e["src"])), if plan.output.is_some() { Some(dst) } else { None }));
+                if e["healthy"].as_bool().unwrap_or(false) {
+                    healthy.insert(k + 1);
+                }
+            }
+        }
+        let probe: Vec<(usize, String)> =
+            if rc { work.iter().map(|(e, src, dst)| (*e, dst.clone().unwrap_or_else(|| src.clone()))).collect() } else { Vec::new() };
         let w = World { plan: &plan, extra: &extra };
         let small = json!({"root": c["root"], "fi": c["fi"], "st": c["st"], "out": c["out"], "ff": c["ff"], "cfg": c["cfg"]});
         let mut worlds: Vec<&str> = vec!["fs"];
@@ -416,20 +583,41 @@ pub fn main(args: &[String]) -> i32 {
             if only.map(|o| o != world).unwrap_or(false) {
                 continue;
             }
-            let run = |nodes: &[Node], reverse: bool, again: bool| {
+            let run = |nodes: &[Node], reverse: bool, again: bool, order: Option<&Registration>, probe: &[(usize, String)]| {
                 if world == "fs" {
-                    w.fs(nodes, reverse, again)
+                    w.fs(nodes, reverse, again, order, probe)
                 } else {
-                    w.mem(nodes, reverse, again)
+                    w.mem(nodes, reverse, again, order, probe)
                 }
             };
-            let (t0, main, again) = run(&tree, false, !inplace);
-            let (_t0r, rep, _) = run(&tree, true, false);
-            let (_r0, refr, _) = if refrun { run(&reftree, false, false) } else { (Vec::new(), not_run(), not_run()) };
+            let first = run(&tree, false, !inplace, None, &probe);
+            let rep = run(&tree, true, false, None, &[]).first;
+            let refr = if refrun { run(&reftree, false, false, None, &[]).first } else { not_run() };
+            // per-directory context: explicit registration orders, every healthy file alone
+            let mut orders: Vec<Value> = Vec::new();
+            let mut alone: Vec<Value> = Vec::new();
+            if rc {
+                for ord in orders_of(work.len()) {
+                    let reg: Registration = ord.iter().map(|&k| (work[k].1.clone(), work[k].2.clone())).collect();
+                    let r = run(&tree, false, false, Some(&reg), &[]);
+                    orders.push(json!({
+                        "ord": ord.iter().map(|&k| work[k].0).collect::<Vec<_>>(),
+                        "t1": r.first["t1"], "panic": r.first["panic"], "nerrs": r.first["errs"].as_array().map(|a| a.len()).unwrap_or(0),
+                    }));
+                }
+                for &(e, ref src, _) in work.iter().filter(|x| healthy.contains(&x.0)) {
+                    let others: BTreeSet<&String> = work.iter().filter(|x| x.0 != e).map(|x| &x.1).collect();
+                    let nodes: Vec<Node> = tree.iter().filter(|n| !others.contains(&real_path(&n.segs))).cloned().collect();
+                    debug_assert!(nodes.iter().any(|n| &real_path(&n.segs) == src));
+                    let r = run(&nodes, false, false, None, &[]);
+                    alone.push(json!({"e": e, "t0": r.t0, "t1": r.first["t1"], "panic": r.first["panic"]}));
+                }
+            }
             out.emit(&json!({
                 "id": format!("{}/{}", c["id"].as_str().unwrap_or("?"), world),
                 "cid": c["id"], "world": world, "case": small,
-                "t0": t0, "main": main, "again": again, "rep": rep, "ref": refr,
+                "t0": first.t0, "main": first.first, "again": first.second, "rep": rep, "ref": refr,
+                "orders": orders, "alone": alone, "ev": first.ev,
             }));
         }
     }
